@@ -1,12 +1,14 @@
 import HexProofs.Manager.HA
 import HexProofs.Manager2.HATf
+import HexProofs.Manager2.HAFill
 import HexProofs.Lib.IntInst
 import HexProps.C03
 /-
 C11 – Heikin-Ashi conversion follows its recurrence under every append schedule.
 Proved for every float carrier `F`.  Full strength without a timeframe (any schedule, starting
-from zero, one or many candles) – `schedule` – and with a collapsing timeframe – `schedule_tf`,
-`with_timeframe` (= the former `with_timeframe_FULL`, now a theorem for every positive timeframe).
+from zero, one or many candles) – `schedule` – with a collapsing timeframe – `schedule_tf`,
+`with_timeframe` (= the former `with_timeframe_FULL`, now a theorem for every positive timeframe) –
+and with timeframe + gap filling – `schedule_tf_fill`, `with_timeframe_fill` (reading-free input).
 -/
 namespace Hex.C11
 open Hex Hex.C03
@@ -179,17 +181,50 @@ theorem merge_restores_raw (b x : Candle F) (p : Option (Candle F)) (hb : b.clea
     (haCandle b p).merge x = b.merge x ∧ (b.merge x).tag = false ∧ (b.merge x).clean = none :=
   ⟨merge_haCandle b x p hb, (untouched_merge b x).1, (untouched_merge b x).2⟩
 
-/-! ### remaining: timeframe + gap filling + Heikin-Ashi -/
+/-! ### timeframe + gap filling + Heikin-Ashi -/
 
-/-- full-strength statement with a collapsing timeframe AND `timeframe_fill` (NOT proved): the
-candles are the Heikin-Ashi fold over the gap-filled resampling.  (`spec` is the gap-filled
-bucket list: `fillMissing tf (resample tf stream) = .ok spec`.) -/
+/-- full-strength statement with a collapsing timeframe AND `timeframe_fill`: the candles are the
+Heikin-Ashi fold over the gap-filled resampling (`spec` = the gap-filled bucket list; C12 says what
+it is).  Proved below (`with_timeframe_fill`) for input candles that carry no readings; NOT proved
+for raw input candles that already carry indicator readings (the gap-fill lemmas of
+HexProofs/Framework/Fill.lean are stated for reading-free streams). -/
 def with_timeframe_fill_FULL (tf : Int) : Prop :=
   ∀ (init : List (Candle F)) (chunks : List (List (Candle F))) (spec : List (Candle F)),
     RawStream (init ++ chunks.flatten) → RawPlain (init ++ chunks.flatten) →
     fillMissing tf (resample tf (init ++ chunks.flatten)) = .ok spec →
     runSchedule ({ tf := some tf, fill := true, ha := true } : MgrCfg) init chunks
       = .ok { cfg := { tf := some tf, fill := true, ha := true }, candles := haSpec spec }
+
+omit [PyF F] in
+theorem rawTf_of {xs : List (Candle F)} (h : RawStream xs) (hnr : ∀ c ∈ xs, Plain c) : RawTf xs :=
+  ⟨h.stamped, h.plain, h.sorted, hnr⟩
+
+/-- **Every append schedule with timeframe + gap filling + Heikin-Ashi.**  The candles indicators
+see are the Heikin-Ashi left fold over the gap-filled collapsed RAW buckets (`fillSpec`), the fill
+pass of the specification succeeds, and no call raises.  Fill candles are inserted with the RAW
+close of their (converted) predecessor and are converted like every other bucket. -/
+theorem schedule_tf_fill (tf : Int) (htf : 0 < tf) (init : List (Candle F)) (chunks : List (List (Candle F)))
+    (h : RawStream (init ++ chunks.flatten)) (hp : RawPlain (init ++ chunks.flatten))
+    (hnr : ∀ c ∈ init ++ chunks.flatten, Plain c) :
+    runSchedule (cfgFillHA tf) init chunks
+      = .ok { cfg := cfgFillHA tf, candles := haSpec (fillSpec tf (init ++ chunks.flatten)) } ∧
+    fillMissing tf (resample tf (init ++ chunks.flatten)) = .ok (fillSpec tf (init ++ chunks.flatten)) := by
+  have hraw := rawTf_of h hnr
+  refine ⟨run_fill_ha_schedule tf htf init chunks hraw hp, ?_⟩
+  obtain ⟨Z, hZ⟩ := filledOf tf htf _ hraw
+  rw [hZ.spec_eq]; exact hZ.eq
+
+/-- `with_timeframe_fill_FULL` for reading-free input candles -/
+theorem with_timeframe_fill (tf : Int) (htf : 0 < tf) (init : List (Candle F)) (chunks : List (List (Candle F)))
+    (spec : List (Candle F)) (h : RawStream (init ++ chunks.flatten)) (hp : RawPlain (init ++ chunks.flatten))
+    (hnr : ∀ c ∈ init ++ chunks.flatten, Plain c)
+    (hspec : fillMissing tf (resample tf (init ++ chunks.flatten)) = .ok spec) :
+    runSchedule ({ tf := some tf, fill := true, ha := true } : MgrCfg) init chunks
+      = .ok { cfg := { tf := some tf, fill := true, ha := true }, candles := haSpec spec } := by
+  obtain ⟨h1, h2⟩ := schedule_tf_fill tf htf init chunks h hp hnr
+  rw [hspec] at h2
+  rw [Except.ok.inj h2]
+  exact h1
 
 /-! ### non-vacuity -/
 
@@ -201,5 +236,18 @@ example : RawStream C03.demo ∧ RawPlain C03.demo :=
 example : (runSchedule (cfgTfHA 60) [] [[C03.demo[0]], [C03.demo[1]], [C03.demo[2]]]).toOption.map
       (fun m => m.candles.map (fun c => (c.ts, c.tag)))
     = some [(some 120, true), (some 180, true)] := by decide
+
+/-- a gap: candles stamped 61 and 241 on a 60-second timeframe, appended one at a time from an EMPTY
+manager with fill: buckets 120, 180 (fill), 240 (fill), 300 – all converted -/
+def gapDemo : List (Candle Int) :=
+  [ { o := .int 1, h := .int 3, l := .int 1, c := .int 2, v := .int 10, ts := some 61 },
+    { o := .int 4, h := .int 4, l := .int 0, c := .int 1, v := .int 5, ts := some 241 } ]
+
+example : RawStream gapDemo ∧ RawPlain gapDemo ∧ ∀ c ∈ gapDemo, Plain c :=
+  ⟨⟨by decide, by decide, by decide⟩, by unfold RawPlain; decide, by decide⟩
+
+example : (runSchedule (cfgFillHA 60) [] [[gapDemo[0]], [gapDemo[1]]]).toOption.map
+      (fun m => m.candles.map (fun c => (c.ts, c.tag, c.v)))
+    = some [(some 120, true, .int 10), (some 180, true, .int 0), (some 240, true, .int 0), (some 300, true, .int 5)] := rfl
 
 end Hex.C11
